@@ -7,6 +7,11 @@ HOOK_COMMITS = subprocess.run(
     capture_output=True, text=True).stdout.strip().splitlines()
 
 CHECKS = {
+ "C09": dict(
+   text="Seeded deterministic simulation of the real StrategyBasedThrottlingPlugin + RateLimitState on a fake clock: histories of requests at instants on the epoch grid (k*W exactly, +-1 ns, mid-window, several windows later), group allocation tables with fractional percentages and every default behaviour, concurrent bursts interleaved at instrumented lock sites. Oracle: reference pass counter per (remedy, group, grid window); R1 bound, R2 no spurious rejection (sequential), R3 configured status, isolation by construction of the per-key reference. Sampling, not proof.",
+   design_ref="DESIGN.md section 4 C09",
+   note="Trusted: synctest fake clock; grid window of t is floor(t/W); share = ceil(allowed*pct/100) in exact integer arithmetic; no window-size changes.",
+   technique="deterministic simulation: seeded boundary-instant histories and lock-site interleaved bursts against a reference per-window counter"),
  "C06": dict(
    text="Seeded deterministic simulation of the real streams engine with a Queue processor on a fixed-window quota: the 100 ms processing loop, the TTL watcher and the removal goroutines are the engine's own and run on the fake clock. Arrivals with priorities, clock targets on/next to processing ticks, window ends and TTL expiries, stalls of request goroutines at instrumented lock sites, context cancel at a random step. Oracles: R1 exactly one verdict within TTL + 1 s once stalls stop, R2 grants per quota window <= max, R3 priority then FIFO order at every grant (engine push timestamps), R4 waiters <= queue_size at quiescent points, R5 shutdown releases waiters and the process survives (a crash of the child is a violation). Sampling, not proof.",
    design_ref="DESIGN.md section 4 C06",
